@@ -139,7 +139,7 @@ def gen_fit(rng):
         n = rng.randint(3, 7)
         xs = [float(i + 1) * 0.5 + round(0.2 * rng.random(), 3) for i in range(n)]
         pt = [round(v * rng.choice([0.8, 1.0, 1.2]), 3) for v in dflt]
-        ys = [round(float(v) + rng.choice([-0.2, 0.1, 0.3]), 3) for v in f(np.array(xs), *pt)]
+        ys = [round(float(v) + rng.choice([-0.2, 0.1, 0.3]), 3) for v in iolib.fn(mk)(np.array(xs), *pt)]
         spec.update({"model": mk, "x": xs, "y": ys, "names": names, "ptrue": pt, "cost": rng.choice(["chi2", "chi2", "chi2_covariance", "nll_gaussian"])})
     elif t == "indexed":
         mk = rng.choice(sorted(iolib.IDX))
@@ -301,7 +301,7 @@ def gen_model(rng):
 def build_model(spec):
     k = K()
     if spec["kind"] == "xy":
-        m = k.XYParametricModel(list(spec["x"]), iolib.XY[spec["model"]][0], list(spec["pars"]))
+        m = k.XYParametricModel(list(spec["x"]), iolib.fn(spec["model"]), list(spec["pars"]))  # (a parametric model takes function handles only)
         if spec["rel_err"]:
             m.add_error("y", spec["rel_err"], name="m", relative=True)
     elif spec["kind"] == "indexed":
